@@ -127,10 +127,268 @@ def part_eval_kernel(ctx):
     return n
 
 
+# ---------------------------------------------------------------- value-range evaluators
+RANGE_OPS2 = ["add", "sub", "mul", "and", "or", "xor", "byte", "signextend", "mod", "div", "sdiv", "smod",
+              "shr", "shl", "sar", "eq", "lt", "gt", "slt", "sgt"]
+RANGE_OPS1 = ["iszero", "not"]
+RANGE_PROOF_FILES = ["RangeEq", "RangeLt", "RangeGt", "RangeDiv", "RangeSlt", "RangeSgt", "RangeSdiv", "RangeSmod",
+                     "RangeBits", "RangeByte", "RangeSignext"]
+HASH_P = 2**127 - 1
+HASH_B = 1000003
+
+
+def gen_range():
+    from vlib.py2coq_ext import ExtTranslator, opt
+    VR = "vrange"
+    ab = {
+        (VR, "lo"): dict(coq="vr_lo", ret=Ty.Z, partial=True),
+        (VR, "hi"): dict(coq="vr_hi", ret=Ty.Z, partial=True),
+        (VR, "is_top"): dict(coq="vr_is_top", ret=Ty.B),
+        (VR, "is_empty"): dict(coq="vr_is_empty", ret=Ty.B),
+        (VR, "is_constant"): dict(coq="vr_is_constant", ret=Ty.B),
+        (VR, "as_constant"): dict(coq="vr_as_constant", ret=opt(Ty.Z), call=True, args=[]),
+    }
+    binds = {
+        "ValueRange.top": dict(coq="TOP", args=[], ret=VR),
+        "ValueRange.empty": dict(coq="BOT", args=[], ret=VR),
+        "ValueRange.iv": dict(coq="vr_iv", args=[Ty.Z, Ty.Z], ret=VR),
+        "ValueRange.constant": dict(coq="vr_constant", args=[Ty.Z], ret=VR),
+        "ValueRange.bool_range": dict(coq="vr_bool", args=[], ret=VR),
+        "ValueRange.bytes_range": dict(coq="vr_bytes1", args=[], ret=VR),
+    }
+    tr = ExtTranslator("vyper.venom.analysis.variable_range.evaluators", extra_modules=["vyper.utils"],
+                       bindings=binds, attr_bindings=ab, type_names={"ValueRange": VR, "str": Ty.S},
+                       none_hints={("eval_and", "mask"): opt(Ty.Z), ("eval_and", "other"): opt(VR)})
+    tr.arg_types_hint[("wrap256", "signed")] = Ty.B
+    tr.arg_types_hint[("unsigned_to_signed", "strict")] = Ty.B
+    tr.arg_types_hint[("int_bounds", "signed")] = Ty.B
+    tr.translate_function("eval_op")
+    return tr.render(header="From Verif Require Import C14.RangeBase.")
+
+
+def range_grid(ctx):
+    K = [-(2**255), -(2**255) + 1, -(2**127), -129, -128, -127, -17, -2, -1, 0, 1, 2, 7, 8, 16, 31, 32, 127, 128, 255,
+         256, 2**128, 2**255 - 1, 2**255, 2**255 + 4, 2**256 - 2, 2**256 - 1]
+    rnd = ctx.rng("ranges")
+    ranges = [("TOP",), ("BOT",)]
+    consts = K if ctx.tier == "thorough" else sorted(set(rnd.sample(K, 9) + [0, 1, -1, 16, 2**255 + 4, 2**256 - 1]))
+    ranges += [("IV", k, k) for k in consts]
+    n_iv = 60 if ctx.tier == "thorough" else 22
+    must = [(-129, -127), (-128, -1), (2**255 - 1, 2**255 + 4), (0, 255), (-5, 5), (1, 2**128), (0, 2**256 - 1)]
+    ivs = set(must)
+    while len(ivs) < n_iv:
+        a, b = sorted(rnd.sample(K, 2))
+        if rnd.random() < 0.3:
+            b = a + rnd.choice([1, 2, 255, 2**64, 2**128, 2**128 + 1])
+            if b > 2**256 - 1:
+                continue
+        ivs.add((a, b))
+    ranges += [("IV", a, b) for a, b in sorted(ivs)]
+    return ranges
+
+
+def _vr_coq(r):
+    if r[0] == "TOP":
+        return "TOP"
+    if r[0] == "BOT":
+        return "BOT"
+    return f"(IV {coqrun.hexlit(r[1])} {coqrun.hexlit(r[2])})"
+
+
+def _vr_py(r):
+    from vyper.venom.analysis.variable_range.value_range import ValueRange
+    if r[0] == "TOP":
+        return ValueRange.top()
+    if r[0] == "BOT":
+        return ValueRange.empty()
+    return ValueRange.iv(r[1], r[2])
+
+
+def _enc_py(fn):
+    try:
+        r = fn()
+    except Exception:
+        return [3, 0, 0]
+    if r.is_top:
+        return [0, 0, 0]
+    if r.is_empty:
+        return [1, 0, 0]
+    return [2, r.lo, r.hi]
+
+
+def _hash(seq):
+    h = 7
+    for x in seq:
+        h = (h * HASH_B + (x % HASH_P)) % HASH_P
+    return h
+
+
+def range_model_differential(ctx, ranges):
+    """Exact-output differential: real eval_op vs the translated model (validates the translator and
+    the hand-bound RangeBase.v) on every (op, A, B) of the grid; compared through a rolling hash
+    computed on both sides, with a full dump of one opcode only on mismatch."""
+    from vyper.venom.analysis.variable_range.evaluators import eval_op
+    imports = ("From Verif Require Import Base.PyInt C14.RangeBase C14.GenRange.\n"
+               f"Definition RS : list vrange := [{'; '.join(_vr_coq(r) for r in ranges)}].\n"
+               "Definition enc (r : res vrange) : list Z := match r with Ok TOP => [0;0;0] | Ok BOT => [1;0;0] "
+               "| Ok (IV l h) => [2;l;h] | Err _ => [3;0;0] end.\n"
+               f"Definition hashl (l : list Z) : Z := fold_left (fun h x => (h * {HASH_B} + (x mod {HASH_P})) mod {HASH_P}) l 7.\n"
+               'Definition allres (op : string) : list Z := flat_map (fun p => enc (eval_op op (fst p) (snd p))) (list_prod RS RS).\n'
+               'Definition allres1 (op : string) : list Z := flat_map (fun a => enc (eval_op op a TOP)) RS.')
+    ops = RANGE_OPS2 + RANGE_OPS1
+    exprs = [f'[hashl (allres "{op}")]' for op in RANGE_OPS2] + [f'[hashl (allres1 "{op}")]' for op in RANGE_OPS1]
+    outs = coqrun.eval_zlists(imports, exprs, "c14range", shard=6)
+    pr = [_vr_py(r) for r in ranges]
+    n = 0
+    bad_ops = []
+    for op, out in zip(ops, outs):
+        seq = []
+        if op in RANGE_OPS2:
+            for a in pr:
+                for b in pr:
+                    seq += _enc_py(lambda: eval_op(op, a, b))
+                    n += 1
+        else:
+            from vyper.venom.analysis.variable_range.value_range import ValueRange
+            for a in pr:
+                seq += _enc_py(lambda: eval_op(op, a, ValueRange.top()))
+                n += 1
+        if _hash(seq) != out[0]:
+            bad_ops.append(op)
+    for op in bad_ops[:3]:
+        full = coqrun.eval_zlists(imports, [f'allres "{op}"' if op in RANGE_OPS2 else f'allres1 "{op}"'], "c14range_dump")[0]
+        k = 0
+        first = None
+        items = [(a, b) for a in ranges for b in ranges] if op in RANGE_OPS2 else [(a, ("TOP",)) for a in ranges]
+        for (a, b) in items:
+            py = _enc_py(lambda: eval_op(op, _vr_py(a), _vr_py(b)))
+            if full[k:k + 3] != py:
+                first = {"op": op, "lhs": a, "rhs": b, "model": full[k:k + 3], "python": py}
+                break
+            k += 3
+        ctx.violation("correspondence-broken", f"py2coq model of evaluators.py / RangeBase.v disagrees with CPython on eval_op({op!r})",
+                      first or {"op": op})
+    ctx.corr["range_model_cases"] = n
+    return n
+
+
+def _members(r, rnd):
+    """Sample words denoted by range r (python tuple form)."""
+    if r[0] == "TOP":
+        return [0, 1, 2**255, 2**256 - 1, rnd.randrange(2**256)]
+    lo, hi = r[1], r[2]
+    pts = {lo, hi, (lo + hi) // 2, min(hi, lo + 1), max(lo, hi - 1)}
+    for p in (0, -1, 2**255 - 1, 2**255, -(2**255)):
+        if lo <= p <= hi:
+            pts.add(p)
+    if hi > lo:
+        pts.add(rnd.randint(lo, hi))
+    return sorted(x % 2**256 for x in pts)
+
+
+def _in_range(w, res):
+    if res.is_top:
+        return True
+    if res.is_empty:
+        return False
+    return any(res.lo <= v <= res.hi for v in (w, w - 2**256))
+
+
+def range_soundness_search(ctx, ranges):
+    """The property's own oracle on the real code: every value that occurs is inside the computed range."""
+    from vyper.venom.analysis.variable_range.evaluators import eval_op
+    from vyper.venom.analysis.variable_range.value_range import ValueRange
+    from vyper.venom.basicblock import IRLiteral
+    from vyper.venom.passes.sccp.eval import eval_arith
+    rnd = ctx.rng("members")
+    n = 0
+    found = 0
+    pr = [(r, _vr_py(r), None) for r in ranges if r[0] != "BOT"]
+    pr = [(r, v, _members(r, rnd)) for r, v, _ in pr]
+    for op in RANGE_OPS2:
+        hit = False
+        for ra, va, ma in pr:
+            if hit:
+                break
+            for rb, vb, mb in pr:
+                try:
+                    res = eval_op(op, va, vb)
+                except Exception as e:
+                    res = None
+                for a in ma:
+                    for b in mb:
+                        n += 1
+                        w = eval_arith(op, [IRLiteral(b), IRLiteral(a)])
+                        if res is None or not _in_range(w, res):
+                            hit = True
+                            found += 1
+                            ctx.violation("failing-input", f"value range computed by eval_{op} misses a value that occurs",
+                                          {"call": f"eval_op({op!r}, {ra}, {rb})", "result": repr(res), "a": str(a), "b": str(b),
+                                           "word": str(w)}, key=f"range:{op}:{ra}:{rb}")
+                            break
+                    if hit:
+                        break
+                if hit:
+                    break
+    for op in RANGE_OPS1:
+        for ra, va, ma in pr:
+            res = eval_op(op, va, ValueRange.top())
+            for a in ma:
+                n += 1
+                w = eval_arith(op, [IRLiteral(a)])
+                if not _in_range(w, res):
+                    found += 1
+                    ctx.violation("failing-input", f"value range computed by eval_{op} misses a value that occurs",
+                                  {"call": f"eval_op({op!r}, {ra})", "result": repr(res), "a": str(a), "word": str(w)},
+                                  key=f"range:{op}:{ra}")
+                    break
+    ctx.corr["range_soundness_samples"] = n
+    ctx.samples.append({"eval_op": ["sdiv", ["IV", -129, -127], ["IV", 16, 16]], "member": -128, "must_contain": -8})
+    return n, found
+
+
+def part_range(ctx):
+    gen_err = None
+    try:
+        text = gen_range()
+        (COQ / "C14" / "GenRange.v").write_text(text)
+    except Unsupported as e:
+        gen_err = str(e)
+    ranges = range_grid(ctx)
+    n_s, found = range_soundness_search(ctx, ranges)
+    n_m = 0
+    if gen_err is None:
+        b = ctx.coq_build_cached(["C14/RangeBase.v", "C14/GenRange.v", "C14/RangeSound.v"])
+        model_ok = (COQ / "C14" / "GenRange.vo").exists() and (b["ok"] or "GenRange" not in b.get("file", ""))
+        if b["ok"]:
+            files = [f"C14/{f}.v" for f in RANGE_PROOF_FILES if (COQ / "C14" / f"{f}.v").exists()]
+            b = ctx.coq_build_parallel(files, deps=["C14/RangeBase.v", "C14/GenRange.v", "C14/RangeSound.v"])
+            if b["ok"] and (COQ / "C14" / "PropsRange.v").exists():
+                b = ctx.coq_build_cached(["C14/RangeBase.v", "C14/GenRange.v", "C14/RangeSound.v"] + files + ["C14/PropsRange.v"])
+        if model_ok:
+            n_m = range_model_differential(ctx, ranges)
+        if not b["ok"] and not found:
+            ctx.violation("theorem-broken", f"{b.get('failed_lemma')} in {b['file']}",
+                          {"theorem": b.get("failed_lemma"), "file": b["file"], "coq_output": b["out"][-1500:]})
+    elif not found:
+        ctx.violation("translator-rejected", "py2coq cannot translate variable_range/evaluators.py: " + gen_err, {"error": gen_err})
+    return n_s + n_m
+
+
+def prebuild(ctx):
+    """Called by setup_cmd: generate and compile once so that checks can reuse byte-identical inputs."""
+    (COQ / "C14" / "GenRange.v").write_text(gen_range())
+    b = ctx.coq_build_cached(["C14/RangeBase.v", "C14/GenRange.v", "C14/RangeSound.v"])
+    if b["ok"]:
+        files = [f"C14/{f}.v" for f in RANGE_PROOF_FILES if (COQ / "C14" / f"{f}.v").exists()]
+        ctx.coq_build_parallel(files, deps=["C14/RangeBase.v", "C14/GenRange.v", "C14/RangeSound.v"])
+
+
 def run(ctx):
     total = 0
     total += wordtie.run(ctx)
     total += part_eval_kernel(ctx)
+    total += part_range(ctx)
     ctx.corr.setdefault("evaluations", 0)
     ctx.corr["evaluations"] += total
     ctx.corr["distinct_nontrivial"] = total
